@@ -21,6 +21,8 @@ fn in_sim() -> bool {
 
 pub mod thread {
     pub use shuttle::thread::*;
+    // (not about scheduling: taken from std)
+    pub use std::thread::available_parallelism;
 
     /// The walker's idle back-off. Time is not modelled: an idle sleep is a yield with the
     /// "deprioritise me" hint, so schedulers that run a task until it blocks still make progress.
@@ -37,9 +39,14 @@ pub mod sync {
 // channel
 // ------------------------------------------------------------------------------------------------
 pub mod channel {
+    //! `crossbeam::channel` as the code under test sees it: a multi-producer multi-consumer queue
+    //! built on the scheduler's Mutex and Condvar (so every blocking point is a scheduling decision
+    //! and a stuck pipeline is a detected deadlock), with the run's capacity knob and the fault
+    //! layer (sender delay, receiver-side reordering, explicit arrival permutations).
     use super::*;
-    use shuttle::sync::mpsc;
-    use std::cell::{Cell, RefCell};
+    use shuttle::sync::{Condvar, Mutex};
+    use std::collections::VecDeque;
+    use std::sync::Arc;
 
     pub struct SendError<T>(pub T);
     impl<T> std::fmt::Debug for SendError<T> {
@@ -53,6 +60,46 @@ pub mod channel {
         }
     }
     impl<T> std::error::Error for SendError<T> {}
+    impl<T> SendError<T> {
+        pub fn into_inner(self) -> T {
+            self.0
+        }
+    }
+
+    pub enum TrySendError<T> {
+        Full(T),
+        Disconnected(T),
+    }
+    impl<T> std::fmt::Debug for TrySendError<T> {
+        fn fmt(&self, f: &mut std::fmt::Formatter<'_>) -> std::fmt::Result {
+            match self {
+                TrySendError::Full(_) => f.write_str("Full(..)"),
+                TrySendError::Disconnected(_) => f.write_str("Disconnected(..)"),
+            }
+        }
+    }
+    impl<T> std::fmt::Display for TrySendError<T> {
+        fn fmt(&self, f: &mut std::fmt::Formatter<'_>) -> std::fmt::Result {
+            match self {
+                TrySendError::Full(_) => f.write_str("sending on a full channel"),
+                TrySendError::Disconnected(_) => f.write_str("sending on a disconnected channel"),
+            }
+        }
+    }
+    impl<T> std::error::Error for TrySendError<T> {}
+    impl<T> TrySendError<T> {
+        pub fn is_full(&self) -> bool {
+            matches!(self, TrySendError::Full(_))
+        }
+        pub fn is_disconnected(&self) -> bool {
+            matches!(self, TrySendError::Disconnected(_))
+        }
+        pub fn into_inner(self) -> T {
+            match self {
+                TrySendError::Full(t) | TrySendError::Disconnected(t) => t,
+            }
+        }
+    }
 
     #[derive(Debug, PartialEq, Eq, Clone, Copy)]
     pub struct RecvError;
@@ -68,105 +115,200 @@ pub mod channel {
         Empty,
         Disconnected,
     }
-
-    enum Tx<T> {
-        Bounded(mpsc::SyncSender<(u32, T)>),
-        Unbounded(mpsc::Sender<(u32, T)>),
-    }
-
-    impl<T> Tx<T> {
-        fn send(&self, m: (u32, T)) -> Result<(), mpsc::SendError<(u32, T)>> {
+    impl std::fmt::Display for TryRecvError {
+        fn fmt(&self, f: &mut std::fmt::Formatter<'_>) -> std::fmt::Result {
             match self {
-                Tx::Bounded(s) => s.send(m),
-                Tx::Unbounded(s) => s.send(m),
+                TryRecvError::Empty => f.write_str("receiving on an empty channel"),
+                TryRecvError::Disconnected => f.write_str("receiving on an empty and disconnected channel"),
             }
         }
     }
+    impl std::error::Error for TryRecvError {}
+    impl TryRecvError {
+        pub fn is_empty(&self) -> bool {
+            matches!(self, TryRecvError::Empty)
+        }
+        pub fn is_disconnected(&self) -> bool {
+            matches!(self, TryRecvError::Disconnected)
+        }
+    }
 
-    impl<T> Clone for Tx<T> {
-        fn clone(&self) -> Self {
+    #[derive(Debug, PartialEq, Eq, Clone, Copy)]
+    pub enum RecvTimeoutError {
+        Timeout,
+        Disconnected,
+    }
+    impl std::fmt::Display for RecvTimeoutError {
+        fn fmt(&self, f: &mut std::fmt::Formatter<'_>) -> std::fmt::Result {
             match self {
-                Tx::Bounded(s) => Tx::Bounded(s.clone()),
-                Tx::Unbounded(s) => Tx::Unbounded(s.clone()),
+                RecvTimeoutError::Timeout => f.write_str("timed out waiting on receive operation"),
+                RecvTimeoutError::Disconnected => f.write_str("channel is empty and disconnected"),
             }
         }
+    }
+    impl std::error::Error for RecvTimeoutError {}
+
+    pub enum SendTimeoutError<T> {
+        Timeout(T),
+        Disconnected(T),
+    }
+    impl<T> std::fmt::Debug for SendTimeoutError<T> {
+        fn fmt(&self, f: &mut std::fmt::Formatter<'_>) -> std::fmt::Result {
+            f.write_str("SendTimeoutError(..)")
+        }
+    }
+
+    struct State<T> {
+        buf: VecDeque<(u64, u32, T)>,
+        /// None = unbounded
+        cap: Option<usize>,
+        senders: usize,
+        receivers: usize,
+        next_ticket: u64,
+        /// tickets of rendezvous items already taken
+        taken: Vec<u64>,
+        /// receiver-side hold-back buffer of the reorder fault (not counted against the capacity)
+        held: Vec<(u64, u32, T)>,
+        delivered: usize,
+    }
+
+    struct Chan<T> {
+        st: Mutex<State<T>>,
+        not_empty: Condvar,
+        not_full: Condvar,
+        handed_over: Condvar,
+        /// this is the pipeline's first channel of the invocation (the one the probes describe)
+        primary: bool,
     }
 
     pub struct Sender<T> {
-        inner: Tx<T>,
-        unbounded: bool,
+        ch: Arc<Chan<T>>,
     }
 
     pub struct Receiver<T> {
-        inner: mpsc::Receiver<(u32, T)>,
-        held: RefCell<Vec<(u32, T)>>,
-        disconnected: Cell<bool>,
+        ch: Arc<Chan<T>>,
     }
 
-    /// `crossbeam::channel::bounded`, with the capacity taken from the run's knob (the literal in
-    /// the code under test is what ships; the knob is what this run explores).
-    pub fn bounded<T>(cap: usize) -> (Sender<T>, Receiver<T>) {
-        let cap = ctx::with(|c| c.knobs.as_ref().map(|k| k.capacity)).flatten().unwrap_or(cap);
-        ctx::with(|c| {
-            c.senders_alive = 1;
-            c.receiver_alive = true;
+    thread_local! {
+        static CHANNELS: std::cell::Cell<u32> = const { std::cell::Cell::new(0) };
+    }
+
+    fn make<T>(cap: Option<usize>) -> (Sender<T>, Receiver<T>) {
+        let primary = CHANNELS.with(|c| {
+            let v = c.get();
+            c.set(v + 1);
+            v == 0
         });
-        let (tx, rx) = mpsc::sync_channel(cap);
-        (
-            Sender { inner: Tx::Bounded(tx), unbounded: false },
-            Receiver { inner: rx, held: RefCell::new(Vec::new()), disconnected: Cell::new(false) },
-        )
+        if primary {
+            ctx::with(|c| {
+                c.senders_alive = 1;
+                c.receiver_alive = true;
+            });
+        }
+        let ch = Arc::new(Chan {
+            st: Mutex::new(State { buf: VecDeque::new(), cap, senders: 1, receivers: 1, next_ticket: 0, taken: vec![], held: vec![], delivered: 0 }),
+            not_empty: Condvar::new(),
+            not_full: Condvar::new(),
+            handed_over: Condvar::new(),
+            primary,
+        });
+        (Sender { ch: ch.clone() }, Receiver { ch })
+    }
+
+    /// `crossbeam::channel::bounded`, with the capacity taken from the run's knob for the pipeline's
+    /// first channel (the literal in the code under test is what ships; the knob is what this run
+    /// explores). Further channels keep the capacity they ask for.
+    pub fn bounded<T>(cap: usize) -> (Sender<T>, Receiver<T>) {
+        let first = CHANNELS.with(|c| c.get()) == 0;
+        let cap = if first && cap > 0 { ctx::with(|c| c.knobs.as_ref().map(|k| k.capacity)).flatten().unwrap_or(cap) } else { cap };
+        make(Some(cap))
     }
 
     /// `crossbeam::channel::unbounded`
     pub fn unbounded<T>() -> (Sender<T>, Receiver<T>) {
-        ctx::with(|c| {
-            c.senders_alive = 1;
-            c.receiver_alive = true;
-        });
-        let (tx, rx) = mpsc::channel();
-        (
-            Sender { inner: Tx::Unbounded(tx), unbounded: true },
-            Receiver { inner: rx, held: RefCell::new(Vec::new()), disconnected: Cell::new(false) },
-        )
+        make(None)
     }
 
     fn note_state(c: &mut ctx::Ctx, q: u32) {
         c.pipe_states.insert((q, c.senders_alive, c.receiver_alive));
     }
 
-    thread_local! {
-        /// messages sitting in the underlying channel (all simulated threads share this OS thread)
-        static QLEN: Cell<u32> = const { Cell::new(0) };
-    }
-
     impl<T> Clone for Sender<T> {
         fn clone(&self) -> Self {
-            ctx::with(|c| c.senders_alive += 1);
-            Sender { inner: self.inner.clone(), unbounded: self.unbounded }
+            self.ch.st.lock().unwrap().senders += 1;
+            if self.ch.primary {
+                ctx::with(|c| c.senders_alive += 1);
+            }
+            Sender { ch: self.ch.clone() }
         }
     }
 
     impl<T> Drop for Sender<T> {
         fn drop(&mut self) {
-            ctx::with(|c| c.senders_alive = c.senders_alive.saturating_sub(1));
+            if let Ok(mut st) = self.ch.st.lock() {
+                st.senders = st.senders.saturating_sub(1);
+                let last = st.senders == 0;
+                drop(st);
+                if last {
+                    self.ch.not_empty.notify_all();
+                }
+            }
+            if self.ch.primary {
+                ctx::with(|c| c.senders_alive = c.senders_alive.saturating_sub(1));
+            }
+        }
+    }
+
+    impl<T> Clone for Receiver<T> {
+        fn clone(&self) -> Self {
+            self.ch.st.lock().unwrap().receivers += 1;
+            Receiver { ch: self.ch.clone() }
+        }
+    }
+
+    impl<T> Drop for Receiver<T> {
+        fn drop(&mut self) {
+            let mut q = 0;
+            let mut last = false;
+            if let Ok(mut st) = self.ch.st.lock() {
+                st.receivers = st.receivers.saturating_sub(1);
+                last = st.receivers == 0;
+                q = (st.buf.len() + st.held.len()) as u32;
+                drop(st);
+                if last {
+                    self.ch.not_full.notify_all();
+                    self.ch.handed_over.notify_all();
+                }
+            }
+            if self.ch.primary && last {
+                ctx::with(|c| {
+                    c.receiver_alive = false;
+                    if c.senders_alive > 0 {
+                        *c.probes.entry("collector_exit_with_senders_alive").or_insert(0) += 1;
+                    }
+                    if q > 0 {
+                        *c.probes.entry("collector_exit_with_items_in_flight").or_insert(0) += 1;
+                    }
+                    note_state(c, q);
+                });
+            }
         }
     }
 
     impl<T> Sender<T> {
-        pub fn send(&self, t: T) -> Result<(), SendError<T>> {
+        fn fault_delay(&self) -> (u32, u32) {
             let me = task_id();
-            let (tag, delay, cap) = ctx::with(|c| {
+            let (tag, delay) = ctx::with(|c| {
                 let tag = c.last_read.remove(&me).unwrap_or(u32::MAX);
                 let k = c.knobs.clone().unwrap_or_else(ctx::Knobs::shipped);
-                let d = if k.delay_max > 0 {
+                let d = if k.delay_max > 0 && self.ch.primary {
                     c.rng.as_mut().map(|r| r.below(k.delay_max as u64 + 1)).unwrap_or(0) as u32
                 } else {
                     0
                 };
-                (tag, d, k.capacity as u32)
+                (tag, d)
             })
-            .unwrap_or((u32::MAX, 0, 100));
+            .unwrap_or((u32::MAX, 0));
             if delay > 0 {
                 ctx::fired("chan_delay");
             }
@@ -174,120 +316,221 @@ pub mod channel {
                 // a plain switch, not a yield hint: priority schedulers must not deprioritise us
                 shuttle::thread::sleep(std::time::Duration::from_millis(0));
             }
-            let q = QLEN.with(|q| q.get());
-            if !self.unbounded && q >= cap.max(1) {
-                ctx::probe("sender_blocked_on_full");
-            }
-            match self.inner.send((tag, t)) {
-                Ok(()) => {
-                    let q = QLEN.with(|q| {
-                        q.set(q.get() + 1);
-                        q.get()
-                    });
-                    ctx::with(|c| {
-                        c.chanlog.push(ChanEv { ev: "send".into(), task: me, file: tag, qlen: q });
-                        note_state(c, q);
-                    });
-                    Ok(())
+            (me, tag)
+        }
+
+        pub fn send(&self, t: T) -> Result<(), SendError<T>> {
+            let (me, tag) = self.fault_delay();
+            let mut st = self.ch.st.lock().unwrap();
+            let mut blocked = false;
+            loop {
+                if st.receivers == 0 {
+                    drop(st);
+                    if self.ch.primary {
+                        ctx::probe("send_after_disconnect");
+                        ctx::with(|c| c.chanlog.push(ChanEv { ev: "send_err".into(), task: me, file: tag, qlen: 0 }));
+                    }
+                    return Err(SendError(t));
                 }
-                Err(mpsc::SendError((_, t))) => {
-                    ctx::probe("send_after_disconnect");
-                    ctx::with(|c| {
-                        c.chanlog.push(ChanEv { ev: "send_err".into(), task: me, file: tag, qlen: 0 });
-                    });
-                    Err(SendError(t))
+                let full = match st.cap {
+                    None => false,
+                    Some(0) => !st.buf.is_empty(),
+                    Some(c) => st.buf.len() >= c,
+                };
+                if !full {
+                    break;
+                }
+                if !blocked && self.ch.primary {
+                    ctx::probe("sender_blocked_on_full");
+                }
+                blocked = true;
+                st = self.ch.not_full.wait(st).unwrap();
+            }
+            let ticket = st.next_ticket;
+            st.next_ticket += 1;
+            st.buf.push_back((ticket, tag, t));
+            let q = st.buf.len() as u32;
+            let rendezvous = st.cap == Some(0);
+            if self.ch.primary {
+                ctx::with(|c| {
+                    c.chanlog.push(ChanEv { ev: "send".into(), task: me, file: tag, qlen: q });
+                    note_state(c, q);
+                });
+            }
+            self.ch.not_empty.notify_one();
+            if rendezvous {
+                // a zero-capacity channel: the send completes when a receiver has taken the item
+                loop {
+                    if let Some(p) = st.taken.iter().position(|x| *x == ticket) {
+                        st.taken.swap_remove(p);
+                        return Ok(());
+                    }
+                    if st.receivers == 0 {
+                        if let Some(p) = st.buf.iter().position(|x| x.0 == ticket) {
+                            let (_, _, t) = st.buf.remove(p).unwrap();
+                            return Err(SendError(t));
+                        }
+                        return Ok(());
+                    }
+                    st = self.ch.handed_over.wait(st).unwrap();
                 }
             }
+            Ok(())
+        }
+
+        pub fn try_send(&self, t: T) -> Result<(), TrySendError<T>> {
+            let (me, tag) = self.fault_delay();
+            let mut st = self.ch.st.lock().unwrap();
+            if st.receivers == 0 {
+                return Err(TrySendError::Disconnected(t));
+            }
+            let full = match st.cap {
+                None => false,
+                Some(0) => true,
+                Some(c) => st.buf.len() >= c,
+            };
+            if full {
+                return Err(TrySendError::Full(t));
+            }
+            let ticket = st.next_ticket;
+            st.next_ticket += 1;
+            st.buf.push_back((ticket, tag, t));
+            let q = st.buf.len() as u32;
+            if self.ch.primary {
+                ctx::with(|c| {
+                    c.chanlog.push(ChanEv { ev: "send".into(), task: me, file: tag, qlen: q });
+                    note_state(c, q);
+                });
+            }
+            self.ch.not_empty.notify_one();
+            Ok(())
+        }
+
+        /// time is not modelled: a timed send is a blocking send
+        pub fn send_timeout(&self, t: T, _d: std::time::Duration) -> Result<(), SendTimeoutError<T>> {
+            self.send(t).map_err(|e| SendTimeoutError::Disconnected(e.0))
         }
 
         pub fn len(&self) -> usize {
-            QLEN.with(|q| q.get()) as usize
+            let st = self.ch.st.lock().unwrap();
+            st.buf.len() + st.held.len()
         }
         pub fn is_empty(&self) -> bool {
             self.len() == 0
         }
+        pub fn is_full(&self) -> bool {
+            let st = self.ch.st.lock().unwrap();
+            st.cap.map(|c| st.buf.len() >= c).unwrap_or(false)
+        }
+        pub fn capacity(&self) -> Option<usize> {
+            self.ch.st.lock().unwrap().cap
+        }
     }
 
     impl<T> Receiver<T> {
-        fn pull(&self) -> bool {
-            match self.inner.recv() {
-                Ok(m) => {
-                    QLEN.with(|q| q.set(q.get().saturating_sub(1)));
-                    self.held.borrow_mut().push(m);
+        /// move one pending message from the queue into the receiver-side hold-back buffer (this
+        /// frees a slot / completes a rendezvous, exactly as a receive does)
+        fn pull(&self, st: &mut State<T>) -> bool {
+            match st.buf.pop_front() {
+                Some(m) => {
+                    if st.cap == Some(0) {
+                        st.taken.push(m.0);
+                    }
+                    st.held.push(m);
                     true
                 }
-                Err(_) => {
-                    self.disconnected.set(true);
-                    false
-                }
+                None => false,
             }
         }
 
-        fn deliver(&self, tag: u32, t: T) -> T {
-            let me = task_id();
-            let q = QLEN.with(|q| q.get());
-            ctx::with(|c| {
-                c.arrival.push(tag);
-                c.chanlog.push(ChanEv { ev: "recv".into(), task: me, file: tag, qlen: q });
-                note_state(c, q);
-            });
+        fn deliver(&self, st: &mut State<T>, idx: usize) -> T {
+            let (_, tag, t) = st.held.remove(idx);
+            st.delivered += 1;
+            let q = st.buf.len() as u32;
+            if self.ch.primary {
+                let me = task_id();
+                ctx::with(|c| {
+                    c.arrival.push(tag);
+                    c.chanlog.push(ChanEv { ev: "recv".into(), task: me, file: tag, qlen: q });
+                    note_state(c, q);
+                });
+            }
             t
         }
 
         pub fn recv(&self) -> Result<T, RecvError> {
-            let (window, perm) = ctx::with(|c| c.knobs.as_ref().map(|k| (k.reorder, k.perm)))
-                .flatten()
-                .unwrap_or((0, None));
-            if window == 0 {
-                return match self.inner.recv() {
-                    Ok((tag, t)) => {
-                        QLEN.with(|q| q.set(q.get().saturating_sub(1)));
-                        Ok(self.deliver(tag, t))
-                    }
-                    Err(_) => Err(RecvError),
-                };
-            }
-            // reorder fault: hold messages back until `window` are pending (or every sender is gone),
-            // then release one chosen by the run's PRNG / by the explicit permutation.
-            while !self.disconnected.get() && (self.held.borrow().len() as u64) < window as u64 {
-                if !self.pull() {
-                    break;
-                }
-            }
-            let n = self.held.borrow().len();
-            if n == 0 {
-                return Err(RecvError);
-            }
-            let idx = if let (Some(p), u32::MAX) = (perm, window) {
-                // all messages are held: release in the order given by the Lehmer code `p`
-                // over the held messages sorted by file tag.
-                let total = ctx::with(|c| c.arrival.len()).unwrap_or(0) + n;
-                self.held.borrow_mut().sort_by_key(|m| m.0);
-                lehmer_digit(p, total, total - n)
+            let (window, perm) = if self.ch.primary {
+                ctx::with(|c| c.knobs.as_ref().map(|k| (k.reorder, k.perm))).flatten().unwrap_or((0, None))
             } else {
-                ctx::with(|c| c.rng.as_mut().map(|r| r.below(n as u64) as usize)).flatten().unwrap_or(0)
+                (0, None)
             };
-            if idx != 0 {
-                ctx::fired("chan_reorder");
+            let mut st = self.ch.st.lock().unwrap();
+            loop {
+                // reorder fault: hold messages back until `window` are pending (or every sender is
+                // gone), then release one chosen by the run's PRNG / by the explicit permutation
+                let mut moved = false;
+                while (st.held.len() as u64) < (window as u64).max(1) && self.pull(&mut st) {
+                    moved = true;
+                }
+                if moved {
+                    self.ch.not_full.notify_all();
+                    self.ch.handed_over.notify_all();
+                }
+                let n = st.held.len();
+                if n > 0 && (n as u64 >= (window as u64).max(1) || (st.senders == 0 && st.buf.is_empty())) {
+                    let idx = if window == 0 {
+                        0
+                    } else if let (Some(p), u32::MAX) = (perm, window) {
+                        // all messages are held: release in the order given by the Lehmer code `p`
+                        // over the held messages sorted by file tag
+                        let total = st.delivered + n;
+                        st.held.sort_by_key(|m| m.1);
+                        lehmer_digit(p, total, total - n).min(n - 1)
+                    } else {
+                        ctx::with(|c| c.rng.as_mut().map(|r| r.below(n as u64) as usize)).flatten().unwrap_or(0)
+                    };
+                    if idx != 0 {
+                        ctx::fired("chan_reorder");
+                    }
+                    return Ok(self.deliver(&mut st, idx));
+                }
+                if n == 0 && st.senders == 0 && st.buf.is_empty() {
+                    return Err(RecvError);
+                }
+                st = self.ch.not_empty.wait(st).unwrap();
             }
-            let (tag, t) = self.held.borrow_mut().remove(idx.min(n - 1));
-            Ok(self.deliver(tag, t))
         }
 
         pub fn try_recv(&self) -> Result<T, TryRecvError> {
-            if let Some((tag, t)) = {
-                let mut h = self.held.borrow_mut();
-                if h.is_empty() { None } else { Some(h.remove(0)) }
-            } {
-                return Ok(self.deliver(tag, t));
+            let mut st = self.ch.st.lock().unwrap();
+            if st.held.is_empty() && self.pull(&mut st) {
+                self.ch.not_full.notify_all();
+                self.ch.handed_over.notify_all();
             }
-            match self.inner.try_recv() {
-                Ok((tag, t)) => {
-                    QLEN.with(|q| q.set(q.get().saturating_sub(1)));
-                    Ok(self.deliver(tag, t))
+            if !st.held.is_empty() {
+                return Ok(self.deliver(&mut st, 0));
+            }
+            if st.senders == 0 {
+                Err(TryRecvError::Disconnected)
+            } else {
+                Err(TryRecvError::Empty)
+            }
+        }
+
+        /// time is not modelled: a timed receive on an empty, connected channel yields once and
+        /// then reports a timeout
+        pub fn recv_timeout(&self, _d: std::time::Duration) -> Result<T, RecvTimeoutError> {
+            match self.try_recv() {
+                Ok(t) => Ok(t),
+                Err(TryRecvError::Disconnected) => Err(RecvTimeoutError::Disconnected),
+                Err(TryRecvError::Empty) => {
+                    shuttle::thread::yield_now();
+                    match self.try_recv() {
+                        Ok(t) => Ok(t),
+                        Err(TryRecvError::Disconnected) => Err(RecvTimeoutError::Disconnected),
+                        Err(TryRecvError::Empty) => Err(RecvTimeoutError::Timeout),
+                    }
                 }
-                Err(mpsc::TryRecvError::Empty) => Err(TryRecvError::Empty),
-                Err(mpsc::TryRecvError::Disconnected) => Err(TryRecvError::Disconnected),
             }
         }
 
@@ -298,45 +541,36 @@ pub mod channel {
             TryIter { rx: self }
         }
         pub fn len(&self) -> usize {
-            QLEN.with(|q| q.get()) as usize + self.held.borrow().len()
+            let st = self.ch.st.lock().unwrap();
+            st.buf.len() + st.held.len()
         }
         pub fn is_empty(&self) -> bool {
             self.len() == 0
+        }
+        pub fn is_full(&self) -> bool {
+            let st = self.ch.st.lock().unwrap();
+            st.cap.map(|c| st.buf.len() >= c).unwrap_or(false)
+        }
+        pub fn capacity(&self) -> Option<usize> {
+            self.ch.st.lock().unwrap().cap
         }
     }
 
     /// digit `pos` (0-based, most significant first) of the Lehmer code of permutation index `p`
     /// over `n` elements: the index to remove from the remaining sorted list.
     pub fn lehmer_digit(p: u64, n: usize, pos: usize) -> usize {
-        // p = sum d_i * (n-1-i)!  with 0 <= d_i <= n-1-i
         let mut fact = vec![1u64; n + 1];
         for i in 1..=n {
             fact[i] = fact[i - 1].saturating_mul(i as u64);
         }
         let mut rem = p % fact[n].max(1);
         let mut d = 0usize;
-        for i in 0..=pos {
+        for i in 0..=pos.min(n.saturating_sub(1)) {
             let f = fact[n - 1 - i];
             d = (rem / f) as usize;
             rem %= f;
         }
         d
-    }
-
-    impl<T> Drop for Receiver<T> {
-        fn drop(&mut self) {
-            let q = QLEN.with(|q| q.get());
-            ctx::with(|c| {
-                c.receiver_alive = false;
-                if c.senders_alive > 0 {
-                    *c.probes.entry("collector_exit_with_senders_alive").or_insert(0) += 1;
-                }
-                if q > 0 {
-                    *c.probes.entry("collector_exit_with_items_in_flight").or_insert(0) += 1;
-                }
-                note_state(c, q);
-            });
-        }
     }
 
     pub struct Iter<'a, T> {
@@ -382,7 +616,7 @@ pub mod channel {
     }
 
     pub(crate) fn reset() {
-        QLEN.with(|q| q.set(0));
+        CHANNELS.with(|c| c.set(0));
     }
 }
 
